@@ -2,6 +2,7 @@
 //   action_check_table   : commands accepted by bfe_basic/action.ActionFileCheck with their parameter count (-1 = any)
 //   rewrite_allowed      : keys of mod_rewrite.allowActions
 //   header_check_table   : commands accepted by mod_header.ActionFileCheck with parameter count (-1 = checked elsewhere)
+//   header_variables     : keys of mod_header.VariableHandlers (names usable as %name in header values)
 //   redirect_check_table : commands accepted by mod_redirect.ActionFileCheck with parameter count
 //   doc_rewrite / doc_header / doc_redirect : commands listed in the "### Actions" table of docs/en_us/modules/<mod>/<mod>.md
 //                          (doc_header with the number of documented parameters)
@@ -173,6 +174,42 @@ func checkTable(fn *ast.FuncDecl, cs map[string]string, what string) []entry {
 	return out
 }
 
+// string keys of the package-level map literal `name`
+func mapKeys(files map[string]*ast.File, cs map[string]string, name string) []string {
+	var out []string
+	for _, f := range files {
+		for _, d := range f.Decls {
+			gd, ok := d.(*ast.GenDecl)
+			if !ok || gd.Tok != token.VAR {
+				continue
+			}
+			for _, s := range gd.Specs {
+				vs := s.(*ast.ValueSpec)
+				if len(vs.Names) != 1 || vs.Names[0].Name != name || len(vs.Values) != 1 {
+					continue
+				}
+				cl, ok := vs.Values[0].(*ast.CompositeLit)
+				if !ok {
+					die("%s is not a composite literal", name)
+				}
+				for _, el := range cl.Elts {
+					kv := el.(*ast.KeyValueExpr)
+					s, ok := strOf(kv.Key, cs)
+					if !ok {
+						die("%s key is not a string constant", name)
+					}
+					out = append(out, s)
+				}
+			}
+		}
+	}
+	if len(out) == 0 {
+		die("%s not found", name)
+	}
+	sort.Strings(out)
+	return out
+}
+
 func allowList(files map[string]*ast.File, cs map[string]string) []string {
 	var out []string
 	for _, f := range files {
@@ -313,6 +350,10 @@ func main() {
 		die("mod_header.ActionFileCheck not found")
 	}
 	headerTable := checkTable(hfn, hcs, "mod_header.ActionFileCheck")
+	var headerVars []entry
+	for _, v := range mapKeys(hfiles, hcs, "VariableHandlers") {
+		headerVars = append(headerVars, entry{v, 0})
+	}
 
 	dcs, dfiles := consts(filepath.Join(*repo, "bfe_modules/mod_redirect"))
 	dfn := findFunc(dfiles, "ActionFileCheck")
@@ -334,6 +375,7 @@ func main() {
 	fmt.Fprintf(&sb, "Definition action_header_prefix : list Z := %s.  (* %s *)\n\n", bytesLit(prefix), prefix)
 	emitTable(&sb, "rewrite_allowed", allowedE, false)
 	emitTable(&sb, "header_check_table", headerTable, true)
+	emitTable(&sb, "header_variables", headerVars, false)
 	emitTable(&sb, "redirect_check_table", redirectTable, true)
 	emitTable(&sb, "doc_rewrite", docRewrite, false)
 	emitTable(&sb, "doc_header", docHeader, true)
